@@ -32,6 +32,19 @@ func (c *colEq) Evaluate(ctx execution.ExecutionContext) (octosql.Value, error) 
 	return octosql.NewBoolean(v.TypeID == c.val.TypeID && v.Compare(c.val) == 0), nil
 }
 
+// outerEq is the harness predicate of the joined side of a lookup join: "joined row[inner] = source record[outer]" (NULL when either is NULL).
+// The joined side runs with the source record one frame up in the variable context.
+type outerEq struct{ outer, inner int }
+
+func (c *outerEq) Evaluate(ctx execution.ExecutionContext) (octosql.Value, error) {
+	in := ctx.VariableContext.Values[c.inner]
+	out := ctx.VariableContext.Parent.Values[c.outer]
+	if in.TypeID == octosql.TypeIDNull || out.TypeID == octosql.TypeIDNull {
+		return octosql.NewNull(), nil
+	}
+	return octosql.NewBoolean(in.TypeID == out.TypeID && in.Compare(out) == 0), nil
+}
+
 func cols(x interface{}) []int {
 	l, _ := x.([]interface{})
 	out := make([]int, len(l))
@@ -76,6 +89,30 @@ func buildNode(cfg map[string]interface{}, src execution.Node) execution.Node {
 		return nodes.NewDistinct(src)
 	case "etbuf":
 		return nodes.NewEventTimeBuffer(src)
+	case "orderby":
+		dl, _ := cfg["dirs"].([]interface{})
+		dirs := make([]int, len(dl))
+		for i := range dl {
+			dirs[i] = vals.Int(dl[i])
+		}
+		var limit *execution.Expression
+		if n := vals.Int(cfg["limit"]); n >= 0 {
+			var e execution.Expression = execution.NewConstant(octosql.NewInt(int64(n)))
+			limit = &e
+		}
+		return nodes.NewOrderSensitiveTransform(src, varExprs(cols(cfg["keys"])), dirs, limit, false)
+	case "limit":
+		return nodes.NewLimit(src, execution.NewConstant(octosql.NewInt(int64(vals.Int(cfg["n"])))))
+	case "lookup":
+		tl, _ := cfg["table"].([]interface{})
+		recs := make([]execution.Record, len(tl))
+		for i := range tl {
+			recs[i] = execution.NewRecord(vals.ToValues(tl[i]), false, execution.Record{}.EventTime)
+		}
+		joined := nodes.NewFilter(nodes.NewInMemoryRecords(recs), &outerEq{outer: vals.Int(cfg["col"]) - 1, inner: vals.Int(cfg["jcol"]) - 1})
+		return nodes.NewLookupJoin(src, joined)
+	case "unnest":
+		return nodes.NewUnnest(src, vals.Int(cfg["col"])-1)
 	case "gb":
 		keys := varExprs(cols(cfg["keys"]))
 		al := cfg["aggs"].([]interface{})
